@@ -549,3 +549,41 @@ Proof.
   split; [|split; [|split]]; [| | |vm_compute; reflexivity]; cbn;
     repeat (constructor; [cbn; intuition discriminate|]); constructor.
 Qed.
+
+(* ============================================================================================ *)
+(* ==== added by agent "actbodies" (C09/C02: the quota loop tied to the source by translation) == *)
+(* ============================================================================================ *)
+(* gen/QuotaLoop.v is regenerated on every run from the BODY of Species.countOffspring in          *)
+(* neat/genetics/species.go: [gen_count_offspring exps skim], over the members' ExpectedOffspring   *)
+(* in species order (the only thing the loop reads), with int(x) = F64.f_trunc_Z, math.Floor =      *)
+(* ffloor, math.Mod(x, 1.0) = fmod1.  The model's loop [count_offspring_gen float_qnum] -- the      *)
+(* binary64 instance that the epoch model runs and that the float-level theorems above are about -- *)
+(* equals the translated body for every list of values and every incoming carry (NaN, infinities,   *)
+(* negative and out-of-range values included).  Editing the loop in the source breaks this.         *)
+(* ============================================================================================ *)
+From NeatModel Require QuotaLoop QuotaLoopAgree.
+
+Theorem C09_quota_loop_is_the_translated_source :
+  (forall (exps : list float) (skim : float),
+     QuotaLoop.gen_count_offspring exps skim = count_offspring_gen float_qnum exps 0 skim) /\
+  (forall (orgs : list organism) (skim : float),
+     count_offspring orgs 0 skim = QuotaLoop.gen_count_offspring (map o_exp orgs) skim).
+Proof. exact (conj QuotaLoopAgree.gen_count_offspring_agrees QuotaLoopAgree.count_offspring_is_translated). Qed.
+Print Assumptions C09_quota_loop_is_the_translated_source.
+
+(* the translated loop run over the example population of C09_ex_fixup (seven organisms in three species,
+   expected offspring = fitness / mean fitness), carrying the fraction from species to species: the same
+   quotas 2, 1, 3 that [count_all] yields there; and the out-of-range conversion of C09_ex_nan_quota *)
+Example C09_ex_translated_quota_loop :
+  match purge_zero_offspring ex_pop3 with
+  | Ok p' =>
+    fst (fold_left (fun (acc : list Z * float) s =>
+           match hgets (p_heap p') (sp_orgs s) with
+           | Ok orgs => let '(e, skim') := QuotaLoop.gen_count_offspring (map o_exp orgs) (snd acc) in (fst acc ++ [e], skim')
+           | _ => acc
+           end) (p_species ex_pop3) ([], 0%float))
+  | _ => []
+  end = [2; 1; 3] /\
+  QuotaLoop.gen_count_offspring [0x1.8p+0; 0x1.cp-1; 0x1.4p+1]%float 0x1p-2%float = (5, 0x1p-3%float) /\
+  fst (QuotaLoop.gen_count_offspring [PrimFloat.nan] 0%float) = - 2 ^ 63.
+Proof. vm_compute. repeat split. Qed.
